@@ -112,7 +112,8 @@ theorem addPhase_nodup (lc lc' : LifeCycle) (p : Phase) (h : (allStates lc).Nodu
   split at ha; · cases ha
   split at ha; · cases ha
   split at ha; · cases ha
-  rename_i h1 h2 h3
+  split at ha; · cases ha
+  rename_i _ h1 h2 h3
   cases ha
   simp only [allStates, List.flatMap_append, List.flatMap_cons, List.flatMap_nil, List.append_nil]
   rw [List.nodup_append]
